@@ -34,6 +34,19 @@ CHECKS["C15"] = dict(cat="other", technique="builder recipes (provenance terms o
     note="Trusted: rustc const evaluation and MIR construction; documented meaning of normalize/to_pt/Neg/Lerp. Not decided: lathe topology, seam and poles for every sector count, radii/extents (index arithmetic over runtime counts plus float rounding). geom is analysed under the ws and std configurations (it needs an fp feature).",
     ref="§3 C15")
 
+CHECKS["C11"] = dict(cat="other", technique="who-may-touch / provenance / dominance rules over every use of the view's backing store; abstract interpretation of the checked index maths over orderings; polynomial identity for the constructor's size check",
+    text="Decides the discipline by which a view touches its storage: every use of Inner.data is an index whose operand comes from to_index_checked/to_index_strict/resolve_bounds, an identity or resolve_bounds-consistent re-borrow with the parent's stride, a length query, the owner's accessor, or a whole-store traversal bounded by take(height) / guarded by an exact-extent check; chunk sizes are provably >= 1; Inner{..} is built only in Inner::new after w <= stride and (h-1)*stride + w <= len; resolve_bounds asserts dominate its index maths; to_index has only its two checked callers and to_index_checked returns Some exactly for x < w && y < h (all nine orderings); no index is truncated before its bounds check.",
+    note="Trusted: rustc MIR construction, fact serialiser. Not decided: equality with an array model over operation histories; the start/end values resolve_bounds computes.",
+    ref="§3 C11")
+CHECKS["C13"] = dict(cat="other", technique="exhaustive panic-edge enumeration over the call graph with schema-based discharge (integer ranges through iterator chains into closures); callee contract verified by non-negativity certificates; format-table agreement by abstract interpretation",
+    text="Decides totality of decoding and the structural half of the round trip: every panic edge below parse_pnm/read_pnm is discharged (constants, ranges bound through zip/cycle/rev/flat_map into the decoding closures, dominating comparisons) or lies inside Buf2::new_from, whose contract is checked three ways: its own panic edges are exactly the documented two, the call site establishes on every path a checked (non-overflowing) pixel count and data.len() >= count with the header's own dims, and every assertion/overflow in Inner::new is refuted under {stride = w, len = w*h, w*h <= u32::MAX} by polynomial non-negativity certificates. Format discriminants are the P1..P6 magics; every magic the header parser accepts has a decoding arm; write_ppm emits an accepted format.",
+    note="Trusted: rustc MIR construction; std classification tables in sa/panics.py; caller-supplied iterator/reader methods do not panic; allocation failure out of scope. Not decided: pixel values of the round trip, text/binary agreement.",
+    ref="§3 C13")
+CHECKS["C14"] = dict(cat="other", technique="exhaustive panic-edge enumeration over the call graph with schema-based discharge; callee contract (attribution, precondition on every path, running-maximum invariant) by dominance and provenance",
+    text="Decides totality of OBJ parsing and that the returned builder builds: every panic edge below parse_obj/read_obj is discharged (the unreachable!() arm by the std fact that whitespace tokens are non-empty) or lies inside Mesh::new, whose contract 'panics iff a face index >= verts.len()' is checked: Mesh::new has exactly that one panic edge; every path to the call passes `max_pos < verts.len()` or `faces.is_empty()`; max_pos is updated with every position index of every face on every loop iteration before the face is stored; every Ok(..) is Mesh::new(..).into_builder().",
+    note="Trusted: rustc MIR construction; std classification tables; caller-supplied iterator/reader methods do not panic. Not decided: coordinates and indices reproduced faithfully.",
+    ref="§3 C14")
+
 NA = {}
 
 
